@@ -55,6 +55,8 @@ type SenderScript struct {
 	DryRun bool
 	// Stats: write the three statistics longs after the last phase (server-sender role).
 	Stats bool
+	// StatsSize: the "total size" statistic to send (default 3).
+	StatsSize int64
 	// RawList, if set, is sent instead of encoding List.
 	RawList []byte
 	// HalfClose: close the sending direction once everything has been sent
@@ -170,9 +172,13 @@ func RunSender(r *rp.R, w io.Writer, s *SenderScript) (*SenderLog, error) {
 	}
 	if s.Stats {
 		var ww rp.W
+		size := int64(3)
+		if s.StatsSize != 0 {
+			size = s.StatsSize
+		}
 		ww.Long(1)
 		ww.Long(2)
-		ww.Long(3)
+		ww.Long(size)
 		if _, err := w.Write(ww.Bytes()); err != nil {
 			return log, err
 		}
